@@ -116,7 +116,7 @@ ARRAY_KINDS = {k for k in KINDS if k.startswith(("a_", "d_", "z_", "eof_", "a2d"
 PTR_KINDS = {"ptr", "ptrs", "a_ptr_2"}
 
 
-def focused_programs(kinds, seed=0, partners=("u8", "u32", "i24", "char"), tier="quick"):
+def focused_programs(kinds, seed=0, partners=("u8", "u32", "i24", "char"), tier="quick", sandwich=()):
     """Every kind of `kinds` alone and paired (both orders) with a few cheap partners; x endian x mode."""
     ps = []
     for k in kinds:
@@ -140,6 +140,14 @@ def focused_programs(kinds, seed=0, partners=("u8", "u32", "i24", "char"), tier=
                         continue
                     ps.append(Program(list(seq), "<>"[i % 2], a))
                     i += 1
+    # a run of the kind, interrupted by another member, resumed (k, q, k): state carried across the interruption
+    for k in kinds:
+        if k in REJECTED or k in HEAVY or k in EOF_KINDS:
+            continue
+        for q in sandwich:
+            for a in (False, True):
+                ps.append(Program([k, q, k], "<>"[i % 2], a))
+                i += 1
     if tier != "quick":
         for k in kinds:
             for q in kinds:
